@@ -12,6 +12,7 @@ import values  # noqa: E402
 
 class C05(e1.E1Check):
     id = "C05"
+    l3_table = "C05"
     rule = ("states = every array of the type menu (outer length<=N, inner lists<=M, leaves<=K, distinct leaf labels) in "
             "every physical encoding with <= enc_k non-canonical nodes; transitions = num / offsets_and_flatten / localindex "
             "at every axis in [-depth-1, depth+1]; oracle = list laws on nested lists (model/refops.py), illegal axes must "
